@@ -1,5 +1,6 @@
 import PkgModel.Version
 import PkgModel.Spec.Pep440
+import PkgModel.Generated.VersionRx
 /-! driver operations for the version model -/
 namespace DriverVer
 open Py V
@@ -59,8 +60,23 @@ def opCanon : List String → String
       | none => "raw InvalidVersion"
   | _ => "bad-op"
 
+/-- `canonicalize_version(Version(s), strip_trailing_zero=f)`: the `Version`-object arm of the dispatch -/
+def opCanonV : List String → String
+  | [f, a] => withS a fun s => match scan s with
+      | none => "err InvalidVersion"
+      | some v => (match v.canon (f == "1") with
+        | some r => encS r
+        | none => "raw InvalidVersion")
+  | _ => "bad-op"
+
+/-- acceptance by the hand-written scanner, then by the regex regenerated from `Version._regex` -/
+def opAccept : List String → String
+  | [a] => withS a fun s =>
+      encB (scan s).isSome ++ encB (Rx.accepts Gen.VersionRx.ranges Gen.VersionRx.rx s)
+  | _ => "bad-op"
+
 def ops : List (String × (List String → String)) :=
   [ ("ver.parse", opParse), ("ver.view", opView), ("ver.cmp", opCmp),
-    ("s.ver.cmp", opSpecCmp), ("ver.canon", opCanon) ]
+    ("s.ver.cmp", opSpecCmp), ("ver.canon", opCanon), ("ver.canonv", opCanonV), ("ver.accept", opAccept) ]
 
 end DriverVer
